@@ -1,13 +1,13 @@
 //! C05 - schemes and purposes are domain-separated.
 
 use crate::gen::{self, Content};
-use crate::refimpl::{self, Scheme, RC, SCHEMES};
+use crate::refimpl::{self, Scheme, RC, RG, SCHEMES};
 use crate::suite::*;
 use crate::{for_both, hx, Ctx};
 use blsful::*;
 use serde_json::json;
 
-pub const RULE: &str = "(a) exhaustive over the 10 exposed tag constants (Basic::DST, MessageAugmentation::DST, Pop::SIG_DST, Pop::POP_DST, ElGamal::ENC_DST for both impls): pairwise distinct, and the 8 signature/PoP ones equal to the draft literals; (b) behavioural, per (key, message) x all 6 ordered pairs (s1,s2) of distinct schemes x 2 groups: signature of s1 re-wrapped as s2 must fail (library and reference); a signature of any scheme over the public-key bytes presented as a proof of possession must fail; a proof of possession presented as a signature of any scheme over the public-key bytes must fail; a proof of knowledge made for s1 re-labelled s2 must fail; a signcryption ciphertext whose scheme field is re-labelled must be invalid and decrypt to nothing; a time-lock ciphertext must not open with the signature of another scheme, nor after being re-labelled. (c) history clusters (2 quick / 10 thorough per group): for one key, message and identifier every artefact of every scheme under every label (signatures incl. signature-over-pk vs proof of possession, signcryption is_valid / decrypt / decryption key, time-lock sealed x label x opening signature, proofs of knowledge; ~80 questions) is asked in ordered pairs (a,b) as the sequence a,b,b,a - every pair within a family, 300/1200 sampled pairs across families - and each answer must equal the answer the question has on its own (accepted exactly when all labels agree). Every negative case has its positive twin in the same run (un-relabelled artefact accepted); a case whose twin fails is counted as vacuous and does not count as coverage. Distinct by (suite, purpose, s1, s2, artefact bytes).";
+pub const RULE: &str = "(a) exhaustive over the 10 exposed tag constants (Basic::DST, MessageAugmentation::DST, Pop::SIG_DST, Pop::POP_DST, ElGamal::ENC_DST for both impls): pairwise distinct, and the 8 signature/PoP ones equal to the draft literals; (b) behavioural, per (key, message) x all 6 ordered pairs (s1,s2) of distinct schemes x 2 groups: signature of s1 re-wrapped as s2 must fail (library and reference); a signature of any scheme over the public-key bytes presented as a proof of possession must fail; a proof of possession presented as a signature of any scheme over the public-key bytes must fail; a proof of knowledge made for s1 re-labelled s2 must fail (library-made with a hash challenge, and hand-assembled for the edge challenges 0, 1, r-1); a signcryption ciphertext whose scheme field is re-labelled must be invalid and decrypt to nothing; a time-lock ciphertext must not open with the signature of another scheme, nor after being re-labelled. (c) history clusters (2 quick / 10 thorough per group): for one key, message and identifier every artefact of every scheme under every label (signatures incl. signature-over-pk vs proof of possession, signcryption is_valid / decrypt / decryption key, time-lock sealed x label x opening signature, proofs of knowledge; ~80 questions) is asked in ordered pairs (a,b) as the sequence a,b,b,a - every pair within a family, 300/1200 sampled pairs across families - and each answer must equal the answer the question has on its own (accepted exactly when all labels agree). Every negative case has its positive twin in the same run (un-relabelled artefact accepted); a case whose twin fails is counted as vacuous and does not count as coverage. Distinct by (suite, purpose, s1, s2, artefact bytes).";
 
 pub fn run(ctx: &mut Ctx) {
     tags(ctx);
@@ -181,6 +181,35 @@ fn run_suite<C: Suite>(ctx: &mut Ctx) {
                         }
                     }
                     _ => ctx.count("vacuous", 1),
+                }
+                // proofs assembled by hand (u = x*H(msg), v = -(x+y)*sig) for the edge challenges
+                // 0, 1, r-1: with y = 0 the tag-dependent term y*H(msg) drops out of the verification
+                // equation, so only the refusal of the zero challenge keeps the schemes apart
+                {
+                    use blsful::inner_types::Field;
+                    let x = gen::random_scalar(&mut rng);
+                    let h = <C::R as RC>::dst(s1);
+                    let hm = RSig::<C>::hash(&pmsg, h);
+                    let rsig = super::util::rsig_of::<C>(&sig);
+                    for (yn, yv) in [("0", refimpl::RS::ZERO), ("1", refimpl::RS::ONE), ("r-1", -refimpl::RS::ONE)] {
+                        let u = super::util::ls::<C>(hm.mul(&x));
+                        let v = super::util::ls::<C>(rsig.mul(&(x + yv)).neg());
+                        let ych = ProofCommitmentChallenge::<C>(sc_from_rs::<C>(&yv));
+                        let _ = <Sc<C> as Field>::ZERO;
+                        let own = match s1 {
+                            Scheme::Basic => ProofOfKnowledge::<C>::Basic { u, v },
+                            Scheme::Aug => ProofOfKnowledge::<C>::MessageAugmentation { u, v },
+                            Scheme::Pop => ProofOfKnowledge::<C>::ProofOfPossession { u, v },
+                        };
+                        for s2 in s1.others() {
+                            let re = relabel_pok(&own, s2);
+                            let mut aug = pkb.clone();
+                            aug.extend_from_slice(&msg);
+                            let accepted = re.verify(pk, &pmsg, ych).is_ok() || re.verify(pk, &msg, ych).is_ok() || re.verify(pk, &aug, ych).is_ok();
+                            ctx.expect(!accepted, &format!("C05/cross-scheme-accepted/pok/{n}/{}->{}", s1.name(), s2.name()), || { let mut x = d("a hand-assembled proof of knowledge verifies under another scheme label", s2); x["challenge"] = json!(yn); x });
+                            ctx.hit(&format!("{n}/pok/{}->{}", s1.name(), s2.name()), &[yn.as_bytes(), &Vec::from(&own)]);
+                        }
+                    }
                 }
             }
 
